@@ -117,6 +117,14 @@ Theorem C14_map_nests_acyclic : forall T M B T',
 Proof. exact map_nests_acyclic. Qed.
 Print Assumptions C14_map_nests_acyclic.
 
+Theorem C14_map_nests_acyclic_nonvacuous :
+  exists B T', mk_bremap exM = Ok B /\ NoDup (keys exT) /\
+    inj_on (b_map_class B) (keys exT ++ map n_encl exT) /\
+    (forall n, In n exT -> rsplit_uu (b_map_class B (n_class n)) = None) /\
+    map_nests exT exM = Ok T' /\ acyclic exT /\ acyclic T' /\ T' <> exT.
+Proof. exact map_nests_acyclic_nonvacuous. Qed.
+Print Assumptions C14_map_nests_acyclic_nonvacuous.
+
 (* ---- 1c. the order of the table ---- *)
 
 (* the mappings side does not depend on it *)
